@@ -9,7 +9,8 @@
 From Coq Require Import List ZArith NArith Bool String Permutation.
 Import ListNotations.
 From DD Require Import Base.PyStr Base.Value Hash.HashModel Hash.Equiv
-  Hash.HashProofsBase Hash.HashProofsC06 Hash.HashProofsC07 Hash.HashProofsMemo Hash.HashProofsK2 Hash.HashMembers.
+  Hash.HashProofsBase Hash.HashProofsC06 Hash.HashProofsC07 Hash.HashProofsMemo Hash.HashProofsK2 Hash.HashMembers
+  Hash.HashAlike Hash.HashProofsAlike.
 
 (* Order-insensitive modes (ignore_iterable_order=True: nested-set and
    nested-multiset mode), every option record, every hasher, all values. *)
@@ -167,3 +168,51 @@ Theorem C06_guards_satisfiable :
    alias_free v = true /\ wf v = true /\ alias_free_with (snd (hash_memo hexhash default_opts v [])) v = true).
 Proof. split; [exact order_ok_example|exact alias_free_example]. Qed.
 Print Assumptions C06_guards_satisfiable.
+
+(* ------------------------------------------------------------------ *)
+(* Round 3: ignore_iterable_order=False without the guard [small_sets].
+   [eqvi o] (Hash/HashAlike.v) is equal content as [eqv o], except that with ignore_iterable_order=False two
+   sets / frozensets must be given in the same iteration order.  It implies equal hashes in EVERY mode, for every
+   hasher, every option record and all values - no guard ... *)
+Theorem C06_eqvi_hash :
+  forall (H : pystr -> pystr) o a b, eqvi o a b -> hash_pure H o a = hash_pure H o b.
+Proof. exact eqvi_hash. Qed.
+Print Assumptions C06_eqvi_hash.
+
+(* ... it is [eqv] in the order-insensitive modes and under the old guard (so C06_eqv_hash and
+   C06_eqv_hash_ordered_partial are instances) ... *)
+Theorem C06_eqvi_vs_eqv :
+  forall o a b,
+  (eqvi o a b -> eqv o a b) /\
+  (eqv o a b -> ignore_iterable_order o = true \/ small_sets a = true -> eqvi o a b).
+Proof.
+  intros o a b. split; [apply eqvi_eqv|]. intros He Hg. apply eqv_eqvi; auto.
+  unfold order_ok. destruct Hg as [->| ->]; auto using orb_true_r.
+Qed.
+Print Assumptions C06_eqvi_vs_eqv.
+
+(* ... and the set clause is the weakest possible (K3, exactly): with ignore_iterable_order=False, for every hasher
+   that is injective with non-empty separator-free outputs, two sets / frozensets of tag-safe members hash alike
+   IF AND ONLY IF they are given in the same iteration order. *)
+Theorem C06_ordered_set_exact :
+  forall (H : pystr -> pystr),
+  (forall s, s <> [] -> sepfree (H s)) -> (forall s t, H s = H t -> s = t) ->
+  forall o xs ys, plain o = true -> ignore_iterable_order o = false ->
+  Forall (fun a => tag_safe_atom a = true) xs -> Forall (fun a => tag_safe_atom a = true) ys ->
+  NoDup xs -> NoDup ys ->
+  (hash_pure H o (VSet xs) = hash_pure H o (VSet ys) <-> xs = ys) /\
+  (hash_pure H o (VFrozen xs) = hash_pure H o (VFrozen ys) <-> xs = ys).
+Proof. exact ordered_set_exact. Qed.
+Print Assumptions C06_ordered_set_exact.
+
+(* the guard-free statement is about non-trivial values: a value holding a two-member set (outside [small_sets])
+   is related to itself, and the K3 pair is equal content ([eqv]) but not [eqvi] *)
+Theorem C06_eqvi_satisfiable :
+  (let v := VList [VSet [AInt 0; AInt 8]; VList [VAtom (AInt 1); VAtom (AInt 2)]; VList [VAtom (AInt 2); VAtom (AInt 1)];
+                   VDict [(AStr (s2p "a"), VTuple [VAtom (AInt 1); VAtom (AHalf 2); VAtom (ABool true)])]] in
+   norep ordered_mode v = true /\ tag_safe v = true /\ wf v = true /\ small_sets v = false /\ eqvi ordered_mode v v) /\
+  (heqb ordered_mode (VSet [AInt 0; AInt 8]) (VSet [AInt 8; AInt 0]) = false /\
+   eqv ordered_mode (VSet [AInt 0; AInt 8]) (VSet [AInt 8; AInt 0]) /\
+   ~ eqvi ordered_mode (VSet [AInt 0; AInt 8]) (VSet [AInt 8; AInt 0])).
+Proof. split; [exact norep_example|exact k3_not_alike]. Qed.
+Print Assumptions C06_eqvi_satisfiable.
